@@ -154,7 +154,7 @@ def replay_exact(ctx: core.Ctx, prefix_filter=None) -> None:
 
 
 # ---- code -> spec ---------------------------------------------------------------------------------------------------
-def gen_configs(seed: int, n: int, nx_max: int, families: str = "all") -> list[dict]:
+def gen_configs(seed: int, n: int, nx_max: int, families: str = "all", f32_tables: bool = False) -> list[dict]:
     rng = np.random.default_rng([seed, 101])
     tables_single = ["pvt_gas", "haynesville", "ideal_csv", "synth_z:0.0002", "synth_z:0.0", "synth_alpha:rising",
                      "synth_alpha:falling", "synth_alpha:kinked", "synth_alpha:steep", "synth_alpha:stepped", "shifted:pvt_gas", "built:0.7,200",
@@ -233,6 +233,15 @@ def gen_configs(seed: int, n: int, nx_max: int, families: str = "all") -> list[d
             c["renx"] = 7 if c["nx"] != 7 else 11
         if c["kind"] == "single" and c.get("sched", "none") != "none" and not c.get("sched_int") and i % 4 == 2:
             c["sched_box"] = "series"
+        # (single-precision tables only for the residual clause of C04: the reference values of C01 / C03 are computed by the
+        # harness in double precision from the same table and would differ from the wrapper's at the 1e-8 level)
+        if f32_tables and c["kind"] == "single" and i % 6 == 4 and c["table"] in ("pvt_gas", "haynesville", "built:0.7,200", "built:1.1,120", "synth_z:0.0002") \
+                and not c.get("prelude") and not c.get("repress") and c["pf"] < 0.9 * c["pi"]:
+            pr = np.sort(np.asarray(sdrv.table(c["table"])["pressure"], dtype=float))
+            row = float(pr[int(np.argmin(np.abs(pr - c["pi"])))])
+            if float(np.float32(row)) == row and row > c["pf"] * 1.1:
+                c["pi"] = row
+                c["f32table"] = True
     return cfgs
 
 
